@@ -13,6 +13,9 @@ func NewLaneUpdatesFromPB(pbLaneUpdates []*rmnpb.FixedDestLaneUpdate) ([]cciptyp
 	laneUpdates := make([]cciptypes.RMNLaneUpdate, 0, len(pbLaneUpdates))
 
 	for _, lu := range pbLaneUpdates {
+		if lu == nil || lu.LaneSource == nil || lu.ClosedInterval == nil {
+			return nil, fmt.Errorf("invalid lane update, lane source and closed interval are required: %v", lu)
+		}
 		if len(lu.Root) != 32 {
 			return nil, fmt.Errorf("invalid merkle root, must be 32 bytes: %v", lu.Root)
 		}
@@ -47,6 +50,9 @@ func NewECDSASigsFromPB(pbSigs []*rmnpb.EcdsaSignature) ([]cciptypes.RMNECDSASig
 
 // NewECDSASigFromPB converts a pb EcdsaSignature to a RMNECDSASignature
 func NewECDSASigFromPB(sig *rmnpb.EcdsaSignature) (*cciptypes.RMNECDSASignature, error) {
+	if sig == nil {
+		return nil, fmt.Errorf("invalid signature, signature is nil")
+	}
 	if len(sig.R) != 32 || len(sig.S) != 32 {
 		return nil, fmt.Errorf("invalid signature, R and S must be 32 bytes: %v", sig)
 	}
